@@ -82,7 +82,7 @@ CHECKS = {
         technique="Lean 4 proof (invariants Core/Log/Kill over the event log) + differential execution with abort injection",
         ref="§4 C02"),
     "C11": dict(
-        text="Theorems C11_reject_original (1 test, 0 writes, status 1), C11_nothing_to_reduce, C11_status (status 0 iff a later candidate was accepted, unless aborted), C11_check_only (1 test, 0 writes, status 0 iff accepted) over the driver model for every script; C11_reject_original_any_history / C11_check_only_any_history: the same for a Lithium object in ANY state left behind by earlier runs (a theorem that was false before the fix e531ec0: run() now forgets last_interesting). Correspondence as C01 with writes observed through st_mtime_ns/st_ino.",
+        text="Theorems C11_reject_original (1 test, 0 writes, status 1), C11_nothing_to_reduce, C11_status (status 0 iff a later candidate was accepted, unless aborted), C11_check_only (1 test, 0 writes, status 0 iff accepted) over the driver model for every script; C11_reject_original_any_history / C11_check_only_any_history / C11_status_any_history: the same for a Lithium object in ANY state left behind by earlier runs (a theorem that was false before the fix e531ec0: run() now forgets last_interesting). Correspondence as C01 with writes observed through st_mtime_ns/st_ino.",
         note=NOTE,
         technique="Lean 4 proof (case analysis + loop invariant on anySuccess) + differential execution of the real driver",
         ref="§4 C11"),
